@@ -27,11 +27,17 @@ func cmdChain(args []string) {
 		}
 	}
 
+	var failures []monFailure
+	scenarioFailures := runScenarios()
+	for _, f := range scenarioFailures {
+		if len(want) == 0 || want[f.Property] {
+			failures = append(failures, f)
+		}
+	}
 	var traces []string
 	kinds := map[string]int{}
 	results := map[string]int{}
 	flags := map[string]int{}
-	var failures []monFailure
 	totalOps, totalTx, totalOk := 0, 0, 0
 	distinct := map[string]bool{}
 	nontrivial := 0
